@@ -22,6 +22,9 @@ import lib
 
 MODELS = [("Unify", "Unify.cfg"), ("Unify", "Unify_B.cfg")]
 ACTIONS = ["Load", "SameVar", "ChaseL", "ChaseOther", "Occurs", "Bind", "Decompose", "Clash", "Ambiguous", "Finish"]
+# development aid (never used by ./check runs of the tiers): VERIF_C12_FAST=1 skips the replay of the
+# exhaustive models and shrinks the seeded sample, for trying code mutations on a loaded machine
+FAST = os.environ.get("VERIF_C12_FAST") == "1"
 MISMATCH_IS_MACHINERY = {"spec-disagree", "bad-input", "bad-observation"}
 
 
@@ -99,7 +102,7 @@ def run(ctx):
 
     ctx.level = "model_checking"
     # 1. the design: exhaustive models, three formulations agree, termination
-    cases = enumerate_models(ctx)
+    cases = [] if FAST else enumerate_models(ctx)
     if not ctx.quick:
         ctx.coverage["actions_taken_in_models"] = check_action_coverage(ctx)
     problems = []
@@ -109,7 +112,7 @@ def run(ctx):
     n_model = len(problems)
     # 2. seeded deeper problems (depth <= 3, functions with flags, arrays, structs, starts)
     g = TU.Gen(ctx.seed * 7919 + 12)
-    n_rand = ctx.pick(6000, 150000)
+    n_rand = 2500 if FAST else ctx.pick(6000, 150000)
     seen = set()
     while len(problems) < n_model + n_rand:
         p = g.problem(3)
@@ -124,10 +127,11 @@ def run(ctx):
     # 4. TLC validates every observation
     reports = validate(ctx, obs, "u")
     byid = {o["id"]: o for o in obs}
-    kinds, nontrivial, verdicts = {}, 0, {}
+    kinds, nontrivial, verdicts, whys = {}, 0, {}, {}
     for p in problems:
         rep = reports[p["id"]]
         verdicts[rep["verdict"]] = verdicts.get(rep["verdict"], 0) + 1
+        whys[rep["why"]] = whys.get(rep["why"], 0) + 1
         if "expected" in p and p["expected"] != rep["verdict"]:
             raise lib.Machinery(f"Unify and Unify_Trace disagree on {p}: {rep}")
         if rep["kind"] in MISMATCH_IS_MACHINERY:
@@ -138,9 +142,16 @@ def run(ctx):
             kinds.setdefault(f"unify:{rep['kind']}:{rep['why']}", []).append(
                 {"problem": {k: p[k] for k in ("s", "t", "start")}, "observed": byid[p["id"]]["obs"],
                  "calls": byid[p["id"]]["calls"], "spec": {k: rep[k] for k in ("verdict", "why", "mgu", "steps")}})
+    # vacuity guard: the replayed problems exercise every way the specification can answer
+    for need in ("occurs", "clash", "flags-linear", "flags-affine", "-"):
+        if not whys.get(need):
+            raise lib.Machinery(f"vacuous sample: no problem with specification outcome {need!r}: {whys}")
+    for need in ("unif", "none", "amb"):
+        if not verdicts.get(need):
+            raise lib.Machinery(f"vacuous sample: no problem with verdict {need!r}: {verdicts}")
     # 5. program level: generic calls
     g2 = TU.Gen(ctx.seed * 104729 + 5, program_level=True)
-    n_call = ctx.pick(250, 4000)
+    n_call = 120 if FAST else ctx.pick(250, 4000)
     cps, seen = [], set()
     while len(cps) < n_call:
         p = g2.call_problem()
@@ -174,11 +185,12 @@ def run(ctx):
         "distinct_nontrivial": nontrivial,
         "rule": "distinct (s, t, start) problems; non-trivial = the specification's algorithm needs >= 5 steps "
                 "(at least one decomposition plus variable steps)",
-        "samples": [{k: problems[i][k] for k in ("s", "t", "start")} for i in (0, n_model // 2, n_model, len(problems) - 1)],
+        "samples": [{k: problems[i][k] for k in ("s", "t", "start")} for i in sorted({0, n_model // 2, min(n_model, len(problems) - 1), len(problems) - 1})],
         "exhaustive": False,
         "exhaustive_part": f"{n_model} problems of the two small universes (all pairs x all consistent starts)",
         "seeded_problems": n_rand,
         "spec_verdicts": verdicts,
+        "spec_failure_reasons": whys,
         "program_level_calls": call_verdicts,
         "mismatch_classes": {k: len(v) for k, v in kinds.items()},
     })
